@@ -563,6 +563,11 @@ func unusual(r *hx.Rng, codec byte, nalus [][]byte, hs []int) ([][]byte, string)
 	case 8: // non-video NAL units of 1..3 bytes anywhere
 		insert(r.Intn(len(nalus)+1), nonVideo(r.Pick(1, 2, 3)))
 		return nalus, "tiny-non-video"
+	case 9: // the 4-byte sample: a single empty NAL unit (before /repo 401deba it got no sub-sample entry at all)
+		return [][]byte{{}}, "only-empty"
+	case 10: // several empty NAL units at the end
+		nalus = append(nalus, []byte{}, []byte{})
+		return nalus, "empty-last-2"
 	}
 	return nalus, "plain"
 }
@@ -1228,6 +1233,15 @@ func corr(e *env, seed uint64, n int, big int) {
 				samples = append(samples, frame(benign(r, codec, genVideoSampleCenc(r, codec, 0))))
 			}
 		}
+		if codec != 'u' && r.Intn(3) == 0 {
+			// fragments mixing normal samples with a 4-byte sample (a single empty NAL unit) / a trailing empty NAL unit
+			j := r.Intn(ns)
+			if r.Bool() {
+				samples[j] = []byte{0, 0, 0, 0}
+			} else {
+				samples[j] = append(append([]byte{}, samples[j]...), 0, 0, 0, 0)
+			}
+		}
 		iv := genIV(r, r.Pick(8, 16))
 		k := key()
 		fr := e.runFragment(codec, scheme, k, iv, samples, o, r)
@@ -1383,6 +1397,9 @@ func (e *env) expectedMask(codec byte, scheme string, nalus [][]byte, hs []int) 
 	for k, n := range nalus {
 		m = append(m, false, false, false, false)
 		p := 0
+		if len(n) == 0 { // an empty NAL unit is its (clear) length field
+			continue
+		}
 		if isVideo(codec, n[0]) {
 			if scheme == "cenc" {
 				if len(n)+4 >= 112 {
@@ -1485,6 +1502,50 @@ func search(e *env, seed uint64, n int, big int) {
 			samples[j] = frame(naluLists[j])
 			benignSamples++
 		}
+		if codec != 'u' && i%5 == 1 {
+			// empty NAL units (length field 0): at the end of a sample (both schemes), in front of another NAL unit
+			// (cenc; cbcs hands the empty NAL unit to the slice header parser and refuses the fragment), and the
+			// 4-byte sample made of a single empty NAL unit, mixed with normal samples
+			j := r.Intn(ns)
+			c := r.Intn(3)
+			if c == 2 && scheme != "cenc" {
+				c = r.Intn(2)
+			}
+			switch c {
+			case 0:
+				naluLists[j] = append(append([][]byte{}, naluLists[j]...), []byte{})
+			case 1:
+				naluLists[j] = [][]byte{{}}
+			default:
+				k := r.Intn(len(naluLists[j]))
+				nl := append([][]byte{}, naluLists[j][:k]...)
+				nl = append(nl, []byte{})
+				naluLists[j] = append(nl, naluLists[j][k:]...)
+			}
+			if hdrLists != nil { // header sizes by NAL unit index: recompute the alignment (empty NAL units have none)
+				var hs []int
+				old := hdrLists[j]
+				oi := 0
+				for _, nn := range naluLists[j] {
+					if len(nn) == 0 {
+						hs = append(hs, 0)
+						continue
+					}
+					if oi < len(old) {
+						hs = append(hs, old[oi])
+					} else {
+						hs = append(hs, 0)
+					}
+					oi++
+				}
+				if c == 1 {
+					hs = []int{0}
+				}
+				hdrLists[j] = hs
+			}
+			samples[j] = frame(naluLists[j])
+			emptyNalSamples++
+		}
 		if codec != 'u' && g == nil && scheme == "cenc" && i%25 == 7 {
 			// a sample with many protected NAL units: 38..45 sub-sample entries
 			k := r.Range(38, 45)
@@ -1551,13 +1612,14 @@ func search(e *env, seed uint64, n int, big int) {
 	fmt.Fprintf(out, "NOTE\tsynthetic_hevc_fragments\t%d\n", synthFrags)
 	fmt.Fprintf(out, "NOTE\tbox_by_box_diffs\t%d\n", boxDiffs)
 	fmt.Fprintf(out, "NOTE\tfragments_with_unusual_placement\t%d\n", benignSamples)
+	fmt.Fprintf(out, "NOTE\tfragments_with_empty_nal_units\t%d\n", emptyNalSamples)
 	fmt.Fprintf(out, "NOTE\tiv_across_fragments\tEncryptFragment has no IV state across fragments: callers (cmd/mp4ff-encrypt) start every fragment from the same IV, so with one key counter blocks repeat ACROSS fragments; the property speaks about one fragment - not alarmed\n")
 	fmt.Fprintf(out, "EVALS\t%d\n", evals)
 	out.Flush()
 }
 
 // checkFragment evaluates the clauses of C07 on one encrypted fragment, after a full encode/decode cycle.
-var maskChecked, synthFrags, benignSamples int
+var maskChecked, synthFrags, benignSamples, emptyNalSamples int
 
 func checkFragment(e *env, fr fragResult, prefix []fragResult, codec byte, scheme string, key, ivIn []byte, samples [][]byte, naluLists [][][]byte, hdrLists [][]int, wit string) {
 	// encode init + fragment, decode again: the observation point is the encoded file
@@ -1746,7 +1808,7 @@ func checkFragment(e *env, fr fragResult, prefix []fragResult, codec byte, schem
 							}
 						}
 					}
-					vid := isVideo(codec, ni.n[0])
+					vid := ln > 0 && isVideo(codec, ni.n[0])
 					switch {
 					case !vid && prot != 0:
 						fail("mp4.GetProtectRanges", "non-video-protected", wit, fmt.Sprintf("sample %d", i))
